@@ -1,6 +1,7 @@
 import Crng.Tie.Util
 import Crng.Gen.Skel
 import Crng.Gen.TableOps
+import Crng.Gen.InPlaceSites
 import Crng.Gen.DispatchLoads
 import Crng.GoSlice
 /-! regenerated obligations for C18 -/
@@ -49,5 +50,11 @@ theorem guards_ok :
 /-- a destination's filter is read and swapped under its own mutex -/
 theorem dest_match_locked : Crng.Gen.skel_destination_Destination_Match =
     ["0 call dest.lockMatcher.Lock()", "0 defer dest.lockMatcher.Unlock()", "0 return dest.Matcher.Match(s)"] := by decide +kernel
+
+/-- nowhere in table/ or route/ is the backing array of an existing slice re-used (`x[:0]`, `append(x[:i], …)` without a
+capacity bound) — except the two worker-local batch buffers, which no dispatcher can hold. This covers slices the published
+configs reach indirectly too (the consistent-hashing ring), whatever function touches them. -/
+theorem no_inplace_reuse : Crng.Gen.inPlaceSites =
+    ["route.GrafanaNet.retryFlush reslice0 metrics[:0]", "route.KafkaMdm.run reslice0 metrics[:0]"] := by decide +kernel
 
 end Crng.Tie.C18
